@@ -6,7 +6,16 @@ from .common import *
 LEVEL = 'proof'
 ASSUMPTIONS = ["hook H2 counts (does not panic on) every byte slice at the unsafe conversion that is not valid UTF-8; the harness reads the counter after every case",
                "the byte-level model of next_nstr is Gosyn/Model/Utf8.lean; its agreement with scanner.rs is by reading (8 lines) + this hook"]
-ALPHA = ['a', 'é', '世', '😀', '+', '<', '=', '&', '.', '0', '1', "'", '"', ' ']
+ALPHA = ['a', 'é', '世', '😀', '+', '<', '=', '&', '.', '0', '1', "'", '"', ' ', '\u00a0', '\u3000']   # the last two: 2- and 3-byte blanks (char::is_whitespace)
+
+
+def died(chk, cases, lines):
+    """a process that dies on one of these short inputs (std's debug check of the unchecked conversion aborts; a release
+    build reads out of bounds) is the undefined behaviour itself"""
+    for (m, s), l in zip(cases, lines):
+        k, v = outcome(l)
+        if k == 'crash':
+            chk.oracle_fail('ub-process-died', m, s, str(v)[:200], 'a tree or an error value', 'the process died while scanning this input (abort / signal): undefined behaviour at the unchecked conversion manifested')
 
 
 def run(chk):
@@ -21,12 +30,14 @@ def run(chk):
             cases.append(('expr', s))
             if n <= 3 or chk.tier != 'quick':
                 cases.append(('file', 'package p; var _ = ' + s))
-    a, b = run_both(chk, 'exhaustive', cases)   # run_both reports every u != 0 as oracle failure 'utf8-invalid-slice'
+    a, b = run_both(chk, 'exhaustive', cases, robust=True)   # run_both reports every u != 0 as oracle failure 'utf8-invalid-slice'
+    died(chk, cases, a)
     chk.count('exhaustive', cases, [s for (m, s) in cases if any(ord(c) > 127 for c in s)])
     chk.extra['exhaustive'] = True
     # random longer soup with multi-byte chars
     sp = streams.utf8_soup(rng, 4000 if chk.tier == 'quick' else 80000)
-    a2, b2 = run_both(chk, 'utf8-soup', sp, robust=False)
+    a2, b2 = run_both(chk, 'utf8-soup', sp, robust=True)
+    died(chk, sp, a2)
     chk.count('utf8-soup', sp, [s for (m, s) in sp if any(ord(c) > 127 for c in s)])
     # the same conversions behind the file entry point (BOM stripping, CR LF): bytes on disk through parse_file
     import os
